@@ -69,7 +69,7 @@ func runC14(outer *testing.T) func(t rapid.TB, h pktsim.History, rec *vx.Case) {
 				if cb := committedIn(w, st, "recv", "ack", "timeout"); len(cb) > 0 {
 					vx.Violatef(t, rec, id, what+"-reaches-app-on-closed-end", "step %d: %s on ORDERED end chain %d %s (closed by the timeout at step %d) committed %d callback(s) (first: %s seq %d); %s", i, what, e.Chain, e.ID, closedAt[e], len(cb), cb[0].Kind, cb[0].Seq, pktsim.Describe(st))
 				}
-				if d := sim.Diff(st.Before, st.After); len(d) > 0 {
+				if d := stateDiff(st.Before, st.After); len(d) > 0 {
 					vx.Violatef(t, rec, id, what+"-changes-state-on-closed-end", "step %d: %s on ORDERED end chain %d %s (closed by the timeout at step %d) changed state %v; %s", i, what, e.Chain, e.ID, closedAt[e], d, pktsim.Describe(st))
 				}
 			}
@@ -200,7 +200,7 @@ func genC14(maxTail int) func(t *rapid.T) pktsim.History {
 			nsend++
 		}
 		mediumTT := func() int { // remaining packets: long timeout, or one a clock jump can pass
-			if rapid.Bool().Draw(t, "medium") {
+			if rapid.IntRange(0, 3).Draw(t, "medium") != 0 {
 				return rapid.IntRange(300, 1500).Draw(t, "mediumTT")
 			}
 			return 0
@@ -274,7 +274,11 @@ func genC14(maxTail int) func(t *rapid.T) pktsim.History {
 		}
 		tail := rapid.IntRange(3, maxTail).Draw(t, "tail")
 		for k := 0; k < tail; k++ {
-			switch rapid.SampledFrom([]string{"send", "ack", "recv", "recvfwd", "timeout", "acknext", "time", "sendrev", "dupterm", "replay", "toc", "update"}).Draw(t, "tailKind") {
+			tk := rapid.SampledFrom([]string{"send", "ack", "recv", "recvfwd", "timeout", "acknext", "time", "timeout", "sendrev", "dupterm", "replay", "toc", "update"}).Draw(t, "tailKind")
+			if tk == "timeout" && mode == "toc" && rapid.Bool().Draw(t, "tocInstead") {
+				tk = "toc"
+			}
+			switch tk {
 			case "send":
 				send(d, 0, mediumTT())
 			case "sendrev":
@@ -296,7 +300,7 @@ func genC14(maxTail int) func(t *rapid.T) pktsim.History {
 			case "toc":
 				add(pktsim.Op{K: "toc", P: pick(fwd), H: genSel(t, 90)})
 			case "time":
-				add(pktsim.Op{K: "time", N: rapid.IntRange(100, 3000).Draw(t, "secs")})
+				add(pktsim.Op{K: "time", N: rapid.IntRange(600, 3500).Draw(t, "secs")})
 			case "dupterm":
 				add(pktsim.Op{K: "dupterm", N: rapid.IntRange(0, 3).Draw(t, "which")})
 			case "replay":
